@@ -325,7 +325,8 @@ def run_case(case):
             o1, o2 = OPTS_[idx]
             require(e["ttl"] == t["ttl"] and e["minor"] == INST[idx][3] and e["run1"] == [desc_semantic(o) for o in o1] and e["run2"] == [desc_semantic(o) for o in o2],
                     "C12.answer-content", lambda: f"answer {e} of instance {INST[idx]} (TTL {t['ttl']})")
-            cands = [k for k in list(must) + list(may) if k[0] == e["dest"] and k[1] == idx and -RES <= e["t"] - k[2] <= t["coll"] + RES]
+            # a timer runs in the iteration whose clock is within RES *before* its deadline (see window() above): same tolerance here
+            cands = [k for k in list(must) + list(may) if k[0] == e["dest"] and k[1] == idx and -1.02 * RES <= e["t"] - k[2] <= t["coll"] + RES]
             require(cands, "C12.answer-time", lambda: f"answer of {INST[idx]} to {e['dest']} on the wire at t={e['t']:.6f}: no FindService from there is due then (collection timeout {t['coll']}); due: {sorted(k[2] for k in list(must) + list(may) if k[0] == e['dest'] and k[1] == idx)}")
     nontrivial = bool(feats) and bool(finds)
     return ok(nontrivial, [f"{k}={'1+' if v else 0}" for k, v in sorted(feats.items())] + [f"instances={n}", f"cyclic={int(bool(t['cyc']))}", f"finds={'0' if not finds else '1+'}"])
